@@ -26,6 +26,9 @@ VARIANTS = [
     {'file': [0, 0, 1], 'skip': None},
     {'file': [0], 'skip': 'c\\.tex'},
     {'file': [1, 0], 'skip': '.*1\\.2.*'},
+    # alternations: "matching" means the whole name matches the expression
+    {'file': [0, 2], 'skip': 'a|c\\.tex'},
+    {'file': [1, 0], 'skip': 'sec.*|tex'},
 ]
 
 
@@ -49,7 +52,8 @@ def ref_closure(n, bits, files, skip):
     names = NAMES[:n]
 
     def skipped(f):
-        return bool(skip and re.search(r'\A' + skip + r'\Z', f))
+        # property level: a file "matches --skip" when the whole name matches
+        return bool(skip and re.fullmatch(skip, f))
     todo = [names[i] for i in files]
     done = []
     while todo:
